@@ -276,6 +276,13 @@ func vmemo_c19Builtins() []string {
 var c19Contexts = []string{
 	`F`, `F | . + 1`, `1, F`, `[F, F]`, `F as $x | [$x, $x]`, `[.[]? | F]`, `try F catch "c"`, `(F // 9)`, `reduce (1, 2) as $i (0; . + (3 | F))`, `[foreach (1, 2) as $i (0; . + 1; F)]`,
 	`first(F, 5)`, `[limit(1; F, F)]`, `[path(F)]`, `F |= 3`, `{a: F}`, `if F then 1 else 2 end`, `. as [$a] ?// $a | F`, `label $l | F, break $l`, `[F] | length`, `"\(F)"`,
+	// a pass-through function with an argument, in path contexts
+	`path(P(.a))`, `[path(.. | P(.a?))]`, `P(.a) |= 3`, `(P(.a) | .a) |= 3`, `path(P(.a) | .a)`, `path(.a | P(.))`, `[path(.[]? | P(.))]`, `del(P(1) | .a)`, `[path(P(1, 2))]`, `try path(P(error)) catch "c"`,
+	`[paths(P(.a?))]`, `P(.a?) as $x | [$x, .]`, `[P(.[]?)]`, `path(P(.a?) | P(.b?))`, `to_entries? | P(.[0])`, `[.[]? | P(.) |= 5]`, `path(first(P(.a?)))`, `[P(.a?, .b?)]`,
+	// an iterator function that keeps its argument slice
+	`[E(1; 2; 3) | . + 10]`, `[E(.; 1; 2)]`, `[E(1; 2; 3) | G(.; .)]`, `[E(1; 2; 3) as $x | E(4; 5; 6) | [$x, .]]`, `[limit(2; E(1; 2; 3))]`, `[E(1; 2; 3) | P(7)]`, `first(E(1; 2; 3) | select(. > 1))`, `[E(1, 2; 3; 4)]`,
+	// a custom function whose name is an internal one at another arity
+	`path(getpath)`, `[path(getpath(1; 2))]`, `getpath(1; 2)`, `getpath | getpath(["a"])?`, `path(getpath | .a?)`, `[paths] | getpath`, `getpath(["a"])? | getpath`,
 	`G(1; 2)`, `[G(1, 2; 3, 4)]`, `[G(.; .)]`, `try G(error; 1) catch "c"`, `[path(G(1; 2))]`, `[G(empty; 1)]`, `G(1; 2) as $x | $x`, `[.[]? | G(.; 1)]`, `first(G((1,2); 3))`, `[limit(3; G((1,2); (3,4)))]`,
 }
 
@@ -291,14 +298,23 @@ func c19GoF(v any, _ []any) any {
 }
 
 func c19GoG(_ any, args []any) any { return []any{args[0], args[1]} }
+func c19GoP(v any, _ []any) any    { return v }
+func c19GoE(_ any, xs []any) Iter  { return NewIter(xs...) }
+func c19GoGetpath(v any, args []any) any {
+	if len(args) == 0 {
+		return v
+	}
+	return []any{args[0], args[1]}
+}
 
-const c19Defs = `def F: if type == "number" then . + 1 elif type == "string" then error("f: string") else . end; def G(a; b): b as $b | a as $a | [$a, $b]; `
+const c19Defs = `def P(a): a as $a | .; def E(a; b; c): c as $c | b as $b | a as $a | ($a, $b, $c); def getpath: .; def getpath(a; b): b as $b | a as $a | [$a, $b]; ` + `def F: if type == "number" then . + 1 elif type == "string" then error("f: string") else . end; def G(a; b): b as $b | a as $a | [$a, $b]; `
 
 func H_C19_custom() {
 	k := nondetChoice(len(c19Contexts))
 	ctx := c19Contexts[k]
 	vlabel("context", ctx)
-	goCode, err1 := Compile(vmemo_parse(ctx), WithFunction("F", 0, 0, c19GoF), WithFunction("G", 2, 2, c19GoG))
+	goCode, err1 := Compile(vmemo_parse(ctx), WithFunction("F", 0, 0, c19GoF), WithFunction("G", 2, 2, c19GoG), WithFunction("P", 1, 1, c19GoP),
+		WithIterFunction("E", 3, 3, c19GoE), WithFunction("getpath", 0, 0, c19GoGetpath), WithFunction("getpath", 2, 2, c19GoGetpath))
 	jqCode := vmemo_compile(c19Defs + ctx)
 	vassert((err1 == nil) == (jqCode != nil), "compiles with the Go function exactly when it compiles with the definition")
 	if err1 != nil || jqCode == nil {
